@@ -42,6 +42,10 @@ type genOpts struct {
 	avoid    map[string]bool // spec tags that must not occur
 	favour   string          // function chosen with probability 1/3 (several: separated by commas, one is drawn per invocation)
 	noCancel bool
+	// restartAt: positions (numbers of operations emitted so far, ascending) at which the host replaces the VM by
+	// a new one built from the same compile output; a VM that has failed and has been probed is replaced at once
+	// while positions are left
+	restartAt []int
 }
 
 // Probes of a VM that has failed: calls that need only a handful of instructions (less than one
@@ -92,7 +96,8 @@ func genHistory(r *fw.Rng, o genOpts) (Payload, int) {
 			failSpecs = append(failSpecs, s)
 		}
 	}
-	firstFail := -1
+	firstFail := -1 // first failing call of the history
+	curFail := -1   // first failing call on the current VM
 	emit := func(s *fnSpec, args []valuni.Val) bool {
 		op := Op{Fn: s.Name, Args: args, Async: r.Chance(1, 10)}
 		pl.Ops = append(pl.Ops, op)
@@ -100,7 +105,17 @@ func genHistory(r *fw.Rng, o genOpts) (Payload, int) {
 		if f != nil && firstFail < 0 {
 			firstFail = len(pl.Ops) - 1
 		}
+		if f != nil && curFail < 0 {
+			curFail = len(pl.Ops) - 1
+		}
 		return f != nil
+	}
+	nextRestart := 0
+	restart := func() {
+		pl.Ops = append(pl.Ops, Op{Fn: opNewVM})
+		st = newState(o.variant.Init)
+		curFail = -1
+		nextRestart++
 	}
 	// the real usage pattern: annotation argument functions first, then main
 	if o.variant.Trigger {
@@ -114,14 +129,21 @@ func genHistory(r *fw.Rng, o genOpts) (Payload, int) {
 		favours = strings.Split(o.favour, ",")
 	}
 	for len(pl.Ops) < o.n {
+		if nextRestart < len(o.restartAt) && len(pl.Ops) >= o.restartAt[nextRestart] {
+			restart()
+		}
 		// a VM that has cancelled its context: one arbitrary call (below), one short and one long probe
-		if firstFail >= 0 && !o.noCancel && len(pl.Ops) >= firstFail+2 {
+		if curFail >= 0 && !o.noCancel && len(pl.Ops) >= curFail+2 {
 			probes := []Op{fw.Pick(r, shortProbes), fw.Pick(r, longProbes)}
 			if r.Bool() {
 				probes[0], probes[1] = probes[1], probes[0]
 			}
 			for _, pr := range probes {
 				emit(specByName[pr.Fn], pr.Args)
+			}
+			if nextRestart < len(o.restartAt) {
+				restart()
+				continue
 			}
 			break
 		}
@@ -155,7 +177,7 @@ func genHistory(r *fw.Rng, o genOpts) (Payload, int) {
 			break
 		}
 		// what the call may have left behind is looked at right away: by one of its observers or by the same function again
-		if (firstFail < 0 || o.noCancel) && len(s.Then) > 0 && r.Chance(2, 3) {
+		if (curFail < 0 || o.noCancel) && len(s.Then) > 0 && r.Chance(2, 3) {
 			t := s
 			if k := r.Intn(len(s.Then) + 1); k < len(s.Then) {
 				t = specByName[s.Then[k]]
